@@ -586,6 +586,7 @@ func puProp(prop string) propFn {
 				if err := json.Unmarshal(raw, &cs); err != nil {
 					panic(err)
 				}
+				c.Pending(&cs)
 				puRun(&cs, r)
 				emit(&cs)
 			}
@@ -597,6 +598,7 @@ func puProp(prop string) propFn {
 		}
 		for i := 0; i < n; i++ {
 			cs := puGen(prop, r, i)
+			c.Pending(cs)
 			puRun(cs, r)
 			emit(cs)
 		}
